@@ -205,7 +205,25 @@ func genRepr(t *rapid.T) reprCase {
 	if rapid.IntRange(0, 3).Draw(t, "wrongLen") == 0 {
 		n = rapid.IntRange(0, 20).Draw(t, "n")
 	}
-	return reprCase{Type: ty, Bytes: rapid.SliceOfN(rapid.Byte(), n, n).Draw(t, "bytes"), Upper: rapid.Bool().Draw(t, "upper"), Pfx: rapid.Bool().Draw(t, "0x")}
+	b := rapid.SliceOfN(rapid.Byte(), n, n).Draw(t, "bytes")
+	switch rapid.IntRange(0, 9).Draw(t, "fill") {
+	case 0: // the all-zero identifier (an unset value in many databases) and other constant fills
+		for i := range b {
+			b[i] = 0x00
+		}
+	case 1:
+		for i := range b {
+			b[i] = 0xff
+		}
+	case 2: // leading zero bytes / nibbles
+		for i := 0; i < len(b)/2; i++ {
+			b[i] = 0
+		}
+		if len(b) > 0 {
+			b[len(b)/2] &= 0x0f
+		}
+	}
+	return reprCase{Type: ty, Bytes: b, Upper: rapid.Bool().Draw(t, "upper"), Pfx: rapid.Bool().Draw(t, "0x")}
 }
 
 func reverse(b []byte) []byte {
@@ -362,6 +380,6 @@ func TestProp(t *testing.T) {
 		400000, 8000000, genMember, checkMember)
 
 	evid.Rapid(r, t, "representations",
-		"EUI64/DevAddr/NetID/AES128Key of correct length and of wrong lengths 0..20: text (hex, optional 0x, upper/lower case), binary (byte reversed), Scan/Value; wrong lengths must be rejected by all three decoders. Every case is non-trivial.",
+		"EUI64/DevAddr/NetID/AES128Key of correct length and of wrong lengths 0..20 (random bytes; 3/10 all-zero, all-ones or with leading zero bytes): text (hex, optional 0x, upper/lower case), binary (byte reversed), Scan/Value; wrong lengths must be rejected by all three decoders. Every case is non-trivial.",
 		200000, 4000000, genRepr, checkRepr)
 }
